@@ -282,10 +282,45 @@ def pop_u(sk, lo, span, *xs):
     return wf(z, 1) >= 0 and mirror(t)
 
 
+def pop_u2(sk, *xs):
+    """2-level source whose upper rank is declared 'U': every coordinate of the shape is offered (absent ones as empty sub-fibers);
+    the source tree and its tensor's rank lists are never modified; z ends up with a's content"""
+    tree, S = sk["tree"], sk["S"]
+    af, pos, _ = build_tree(tree, xs)
+    ta = Tensor.fromFiber(["M", "K"], af, shape=[S, S])
+    ta.setFormat("M", "U")
+    a = ta.getRoot()
+    sa = raw(a)
+    ra = [list(r.fibers) for r in ta.ranks]
+    tz = Tensor(rank_ids=["M", "K"], shape=[S, S])
+    seen = []
+    for m, (z_k, a_k) in tz.getRoot() << a:
+        seen.append(m)
+        for k, (z_ref, a_val) in z_k << a_k:
+            z_ref += a_val
+        if not mirror(tz):
+            return False
+    if seen != list(range(S)):
+        return fail("a 'U' source rank did not offer its whole shape")
+    if raw(a) != sa:
+        return fail("a was modified")
+    for i, r in enumerate(ta.ranks):
+        if not same_objects(r.fibers, ra[i]):
+            return fail("populating from a changed a's tensor: rank %d lists %d fibers (was %d)" % (i, len(r.fibers), len(ra[i])))
+    if content(tz.getRoot()) != content(a):
+        return fail("z does not hold a's content")
+    return wf(tz.getRoot(), 2) >= 0 and mirror(tz)
+
+
 def obligations(tier):
     q = tier == "quick"
     obs = []
     N = 2 if q else 3
+    for tree in ([[1], [1, 0]] if q else [[1], [1, 0], [1, 1], [2]]):
+        S = 3
+        ps = names("a", tree_params(tree))
+        pre, _, cn = tree_pre(tree, ps)
+        obs.append(Ob("pop_u2/%s" % str(tree).replace(" ", ""), "pop_u2", dict(tree=tree, S=S), ps, pre + bound_pre(cn, 0, S)))
     for nz in range(N + 1):
         for na in range(N + 1):
             if na >= 2 and nz >= 2:
